@@ -36,7 +36,7 @@ FLOORS = {"quick": {"histories": 60000, "exhaustive_core_histories": 50000, "ran
                     "deadline_before_placements": 5000, "deadline_after_placements": 5000, "offered_required_checks": 50000}}
 
 FOREVER = 0xFFFFFF
-SERVICES = {1: (0x1111, 1, 1, 0), 2: (0x1111, 2, 1, 0), 3: (0x2222, 1, 1, 7)}
+SERVICES = {1: (0x1111, 1, 1, 0), 2: (0x1111, 2, 1, 0), 3: (0x2222, 1, 1, 7), 4: (0x2222, 1, 1, 8), 5: (0x1111, 1, 2, 0)}  # 4, 5: near misses of filters F3 / F2
 SOURCES = {"A": ("10.0.5.1", 30490), "B": ("10.0.5.1", 30491)}  # same host, other port: keys must use the full address
 SRC_NAME = {v: k for k, v in SOURCES.items()}
 # registrations: name -> filter tuple (sid, iid, maj, minor) or None for watch-all
@@ -385,10 +385,10 @@ def random_history(rng):
         r = rng.random()
         if r < 0.55:
             src = rng.choice("AAB")
-            k = rng.choice((1, 1, 1, 2, 3))
+            k = rng.choice((1, 1, 1, 2, 3, 4, 5))
             ents = [(SERVICES[k], rng.choice((0, 1, 1, 2, 3, FOREVER)))]
             if rng.random() < 0.15:
-                ents.append((SERVICES[rng.choice((1, 2, 3))], rng.choice((0, 1, 2, FOREVER))))
+                ents.append((SERVICES[rng.choice((1, 2, 3, 4, 5))], rng.choice((0, 1, 2, FOREVER))))
             a = dict(kind="msg", src=src, mc=rng.random() < 0.3, entries=ents, reboot=rng.random() < 0.12)
         elif r < 0.6:
             a = dict(kind="msg", src=rng.choice("AB"), mc=False, entries=[], reboot=True)
